@@ -256,6 +256,43 @@ pub fn check(html: &str, w: usize, cx: &mut Cx) {
     }
 }
 
+/// pad_block_width: "padding carries only the annotations of the enclosing block's ancestors".
+/// The trailing white space of a padded line must not carry an inline annotation (emphasis,
+/// strong, link, code, strikeout) that some token of the same line is outside of.
+pub fn check_pad(html: &str, w: usize, cx: &mut Cx) {
+    let cfg = Cfg::rich().with(Opt::DocCss).with(Opt::UserCss(SHEET.to_string())).with(Opt::Pad);
+    let d = dom::parse(html.as_bytes());
+    let (strict, _) = expected_with_elems(&d, true);
+    let r = cx.render_lines(html.as_bytes(), w, &cfg);
+    cx.state(1);
+    let lines = match &r {
+        Out::Ok(l) => l,
+        _ => return,
+    };
+    for l in lines {
+        let mut chars: Vec<(char, Vec<String>)> = vec![];
+        for p in l {
+            if let Piece::Str(s, tags) = p {
+                let got = norm(tags);
+                for c in s.chars() {
+                    chars.push((c, got.clone()));
+                }
+            }
+        }
+        let end = chars.iter().rposition(|(c, _)| !c.is_whitespace()).map(|i| i + 1).unwrap_or(0);
+        let toks: Vec<&Vec<String>> = chars[..end].iter().filter_map(|(c, _)| strict.get(c)).collect();
+        for (_, v) in &chars[end..] {
+            let inline_last = v.last().map(|t| ["Emphasis", "Strong", "Link", "Code", "Strikeout"].iter().any(|k| t.starts_with(k))).unwrap_or(false);
+            if inline_last && toks.iter().any(|t| t.len() < v.len() || t[..v.len()] != v[..]) {
+                let class = format!("pad_block_width: padding carries an inline annotation that does not enclose the whole line [{}]", shape_key(html.as_bytes()));
+                cx.violation(&class, || json!({"html": html, "width": w, "padding_tags": v, "line": line_text(l),
+                    "as_unit_test": format!("#[test] fn c09_replay() {{ let ls = html2text::config::rich().use_doc_css().add_css({SHEET:?}).unwrap().pad_block_width().lines_from_read({html:?}.as_bytes(), {w}).unwrap(); /* the trailing padding must not be tagged {v:?} */ }}")}));
+                return;
+            }
+        }
+    }
+}
+
 type Wrap = (&'static str, &'static [(&'static str, &'static str)]);
 const INL: [Wrap; 13] = [
     ("em", &[]),
@@ -359,6 +396,7 @@ impl Scope for S {
                 let h = html(&d);
                 for w in 1..=self.maxw {
                     check(&h, w, cx);
+                    check_pad(&h, w, cx);
                 }
             }
         }
@@ -399,5 +437,6 @@ impl Prop for P {
     }
     fn replay(&self, case: &Value, cx: &mut Cx) {
         check(case["html"].as_str().unwrap_or(""), case["width"].as_u64().unwrap_or(1) as usize, cx);
+        check_pad(case["html"].as_str().unwrap_or(""), case["width"].as_u64().unwrap_or(1) as usize, cx);
     }
 }
